@@ -512,6 +512,9 @@ class NF:
                 return ("map", recv, self.closure_apply(args[0], [("payload", "Some", recv)], env))
             if name in ("is_some_and",):
                 return ("call", "is_some_and", (recv, self.closure_apply(args[0], [("payload", "Some", recv)], env)))
+            if name in ("filter",):
+                # Option::filter(pred): Some(x) only if pred(x)
+                return ("call", "Option::filter", (recv, self.closure_apply(args[0], [("payload", "Some", recv)], env)))
             if name in ("is_ok_and",):
                 return ("call", "is_ok_and", (recv, self.closure_apply(args[0], [("payload", "Ok", recv)], env)))
             if name == "map_or":
